@@ -1,5 +1,6 @@
 import SppModel.Lemmas.Loop
 import SppModel.Generated.BlockKernels
+import SppModel.Frozen.BlockKernels
 import SppModel.Model.Dedisp
 import SppModel.Lemmas.BlockKernels
 /-!
@@ -14,10 +15,10 @@ the same function on lists.  An edit of a slice bound, a sign, the window arithm
 source changes the generated term and breaks these proofs.
 -/
 namespace SppModel.KernelSpecs
-open SppModel SppModel.Loop SppModel.Generated.BlockKernels
+open SppModel SppModel.Loop SppModel.Frozen.BlockKernels
 
 /-- the kernels were recognised by the translator on this run -/
-theorem block_kernels_translated : ∀ f ∈ translationFailures,
+theorem block_kernels_translated : ∀ f ∈ Generated.BlockKernels.translationFailures,
     f.1 ∉ ["kernels_py_blocks", "block_roll_block", "block_roll_block_valid", "block_dmt_block", "block_dmt_block_valid"] := by
   decide
 
@@ -311,20 +312,20 @@ theorem dmt_block_valid_in_row (rows cols : Nat) (d : Nat → Nat → Int) (ndms
 /-! ## the executable twins run by the correspondence check are the same functions -/
 
 theorem roll_block_exec_eq (memo : Nat) (arr : Nat → Nat → Rat) (rows cols : Nat) (sh : Nat → Int) (len : Nat) :
-    roll_block_exec memo arr rows cols sh len = roll_block arr rows cols sh len := by
-  simp only [roll_block_exec, roll_block, Loop.forRangeM_eq]
+    Generated.BlockKernels.roll_block_exec memo arr rows cols sh len = Generated.BlockKernels.roll_block arr rows cols sh len := by
+  simp only [Generated.BlockKernels.roll_block_exec, Generated.BlockKernels.roll_block, Loop.forRangeM_eq]
 
 theorem roll_block_valid_exec_eq (memo : Nat) (arr : Nat → Nat → Rat) (rows cols : Nat) (sh : Nat → Int) (len : Nat) :
-    roll_block_valid_exec memo arr rows cols sh len = roll_block_valid arr rows cols sh len := by
-  simp only [roll_block_valid_exec, roll_block_valid, Loop.forRangeM_eq]
+    Generated.BlockKernels.roll_block_valid_exec memo arr rows cols sh len = Generated.BlockKernels.roll_block_valid arr rows cols sh len := by
+  simp only [Generated.BlockKernels.roll_block_valid_exec, Generated.BlockKernels.roll_block_valid, Loop.forRangeM_eq]
 
 theorem dmt_block_exec_eq (memo : Nat) (arr : Nat → Nat → Rat) (rows cols : Nat) (d : Nat → Nat → Int) (a b : Nat) :
-    dmt_block_exec memo arr rows cols d a b = dmt_block arr rows cols d a b := by
-  simp only [dmt_block_exec, dmt_block, Loop.forRangeM_eq, roll_block_exec_eq]
+    Generated.BlockKernels.dmt_block_exec memo arr rows cols d a b = Generated.BlockKernels.dmt_block arr rows cols d a b := by
+  simp only [Generated.BlockKernels.dmt_block_exec, Generated.BlockKernels.dmt_block, Loop.forRangeM_eq, roll_block_exec_eq]
 
 theorem dmt_block_valid_exec_eq (memo : Nat) (arr : Nat → Nat → Rat) (rows cols : Nat) (d : Nat → Nat → Int) (a b : Nat) :
-    dmt_block_valid_exec memo arr rows cols d a b = dmt_block_valid arr rows cols d a b := by
-  simp only [dmt_block_valid_exec, dmt_block_valid, Loop.forRangeM_eq]
+    Generated.BlockKernels.dmt_block_valid_exec memo arr rows cols d a b = Generated.BlockKernels.dmt_block_valid arr rows cols d a b := by
+  simp only [Generated.BlockKernels.dmt_block_valid_exec, Generated.BlockKernels.dmt_block_valid, Loop.forRangeM_eq]
 
 /-- non-vacuity: a 2×3 block rolled by (1, -1) -/
 example : ((roll_block (arrOf [[1, 2, 3], [4, 5, 6]]) 2 3 (shiftsOf [1, -1]) 2).getD (fun _ _ => 0)) 0 0 = 3
